@@ -385,10 +385,30 @@ theorem C18_pbs_node_list (c : Cfg) (chunks : List (List (Nat × Nat))) (ls : Li
     obtain ⟨_, _, e⟩ := mem_map.mp this
     exact e.symm
 
+/-- **Slurm: a configured GPU count is what every node gets**, whatever the batch environment
+    reports; the environment is consulted only when nothing is configured -/
+theorem C18_slurm_gpus (c : Cfg) (ls : List Line) (hosts : List Name) (envCpus : Option Nat) (detected : Nat)
+    (nodes : List Node) (cpn : Nat) (h : initKind .slurm c ls hosts envCpus detected = .ok (nodes, cpn)) :
+    (c.gpn ≠ 0 → ∀ nd ∈ nodes, nd.gpus.length = c.gpn)
+    ∧ (c.gpn = 0 → ∀ nd ∈ nodes, nd.gpus.length = envGpn c) := by
+  unfold initKind at h
+  simp only at h
+  cases hn : (if c.cpn ≠ 0 then some c.cpn else envCpus) with
+  | none => rw [hn] at h; cases h
+  | some n =>
+    rw [hn] at h
+    simp only [Except.ok.injEq, Prod.mk.injEq] at h
+    obtain ⟨h1, _⟩ := h
+    subst h1
+    have hspec := (C18_node_list (hosts.map (fun h => (h, n))) (slurmGpn c)).2.2.2.2
+    refine ⟨fun hg nd hnd => ?_, fun hg nd hnd => ?_⟩
+    · rw [hspec nd hnd]; unfold slurmGpn; rw [if_pos hg]
+    · rw [hspec nd hnd]; unfold slurmGpn; rw [if_neg (by simpa using hg)]
+
 /-! non-vacuity (tests) -/
 example : (pbsVnodes [[(3, 8)], [(3, 8), (1, 8)], [(1, 8)], [(7, 8)]]).toOption = some ([1, 3, 7], 8) := by decide
 
-example : (initRM .torque ⟨4, 1, 1, 2, 8, 0, 0, [0], [], 1, 0, none⟩
+example : (initRM .torque ⟨4, 1, 1, 2, 8, 0, 0, [0], [], 1, 0, none, none, 0⟩
       [.host ⟨1, false, false⟩, .blank, .host ⟨2, false, false⟩, .host ⟨1, false, false⟩, .host ⟨3, false, false⟩] [] none 8 []).toOption.map
       (fun i => (i.nodeList.map (fun n => (n.name.id, n.index, n.cores)), i.agentNodes.map (·.name.id)))
     = some ([(1, 0, [.down, .free, .free, .free])], [2]) := by decide
